@@ -86,3 +86,13 @@ pub fn any_opts(c: &mut Choices, allow_pragma: bool, allow_resolve_type: bool) -
         patterns: pats.iter().map(|s| s.to_string()).collect(),
     }
 }
+
+/// Replace the pragma by a name that is no identifier / member path (the transform must report
+/// it and fall back to the default factory).
+pub fn maybe_invalid_pragma(c: &mut Choices, opts: &mut Opts) -> bool {
+    if c.chance(1, 25) {
+        opts.pragma = Some(c.choose(&["custo?", "h (x)", "1a", "a..b", "", "a.", "h-1"]).to_string());
+        return true;
+    }
+    false
+}
